@@ -154,7 +154,7 @@ Record request := mkreq { rq_op : nat; rq_ct : bytes; rq_accept : list bytes; rq
 (* What comes back. Outcome: 0 the handler of that operation ran and 200 was written, 1 answered 500 no consumer registered,
    2 panic cannot find a producer, 3 anything else, 4 not routed (404 or 405), 5 content type refused (415),
    6 nothing acceptable (406), 7 not authenticated (401). For outcome 0: the Content-Type of the response and the
-   key of the producer that wrote it; both empty otherwise. *)
+   key of the producer that wrote it (empty for the body-less answer to HEAD); both empty otherwise. *)
 Record result := mkres { rs_outcome : nat; rs_ctype : bytes; rs_producer : bytes }.
 Definition res_fail (k : nat) : result := mkres k [] [].
 
@@ -194,7 +194,13 @@ Definition same_route (d : desc) (o o' : opdesc) : bool :=
   negb (bytes_eqb (op_path o) (op_path o')).
 Definition route_collides (d : desc) (o : opdesc) : bool := existsb (same_route d o) (g_ops d).
 
-(* router, security, content type, response format, handler returning a value (C08's serve) *)
+(* the method of the operation is HEAD (the analyzer spells methods in upper case; folded all the same) *)
+Definition HEAD_M : bytes := [72; 69; 65; 68].
+Definition is_head (o : opdesc) : bool := bytes_eqb (upper (op_method o)) HEAD_M.
+
+(* router, security, content type, response format, handler returning a value (C08's serve).
+   A request is sent with the method of the operation it addresses. To a HEAD request Respond writes the status and the
+   Content-Type header and nothing else: no producer is looked up (none can be missing), the body stays empty. *)
 Definition serve_request (a : api) (d : desc) (o : opdesc) (rq : request) : result :=
   if negb (route_added a d o) then res_fail 4 else
   if negb (own_template d o) then res_fail 3 else     (* routed to the handler of the operation declared under the cleaned template *)
@@ -207,14 +213,14 @@ Definition serve_request (a : api) (d : desc) (o : opdesc) (rq : request) : resu
   match parse_accept (rq_accept rq) with
   | None => res_fail 3
   | Some specs =>
-    match serve (a_default a) (a_producers a) (route_of a d o) specs false NoAuth DValue with
+    match serve (a_default a) (a_producers a) (route_of a d o) specs (is_head o) NoAuth DValue with
     | Panicked PNoProducer _ => res_fail 2
     | Panicked PNilRoute _ => res_fail 3
     | Responded r =>
       match o_error r, o_producer r with
       | Some e, _ => if Nat.eqb e 406 then res_fail 6 else res_fail 3
       | None, Some p => mkres 0 (o_ctype r) p
-      | None, None => res_fail 3
+      | None, None => if is_head o then mkres 0 (o_ctype r) [] else res_fail 3
       end
     end
   end.
